@@ -224,10 +224,13 @@ def c06(ctx, v):
 
 
 def c07(ctx, v):
-    fixture_once(ctx, ["R-HINT"])
+    fixture_once(ctx, ["R-HINT", "R-CAPFWD"])
     M.r_hint(ctx, v)
     M.r_strat(ctx, v)
     M.r_consume(ctx, v)
+    # "the outcome depends only on the sequence of pairs": the capacity of either queue is not part of that sequence (round 13:
+    # append keeping whichever store "already has room")
+    D.r_capinvisible(ctx, v)
     only = lambda root, d: d.kind == "BULK"
     O.r_restore(ctx, v, PQ, only=only)
     O.r_restore(ctx, v, DPQ, only=only)
@@ -238,7 +241,9 @@ def c07(ctx, v):
 
 
 def c08(ctx, v):
-    sel = lambda root, d: d.kind in ("BULK", "PRED") and any(
+    # ANYQP / ANY: the predicate (or the code around it) reached a stored priority by another route than the reviewed primitive
+    # (round 13: `test_position(i, f)` followed by a fresh `pop_max()`)
+    sel = lambda root, d: d.kind in ("BULK", "PRED", "ANYQP", "ANY") and any(
         k in root.key for k in ("retain", "pop_if", "pop_min_if", "pop_max_if", "iter_mut", "IterMut", "into_iter"))
     O.r_restore(ctx, v, PQ, only=sel)
     O.r_restore(ctx, v, DPQ, only=sel)
@@ -411,10 +416,11 @@ PROPS = {
     "C07": {"rules": [c07], "explanation":
             "R-HINT (taint: the upper bound of Iterator::size_hint reaches no allocation request and no overflow-checked arithmetic, "
             "interprocedurally), R-STRAT (first/last/receiver-wins table; both Extend strategies write the same part of a present entry; append "
-            "swaps only if other is strictly longer and always drains other; the queue-level FromIterator / From<Vec> reach only Store-level "
+            "swaps if and only if other is strictly longer and always drains other; the queue-level FromIterator / From<Vec> reach only Store-level "
             "strategies with their own duplicate policy - last pair wins / first pair stays - whatever the size hint says), R-RESTORE BULK instances (heap_build after every bulk path), "
             "R-GROW, R-GROWVAL and R-STORELIT for from/from_iter/extend/append, R-CONSUME (every path of extend/from_iter/from reads the whole source: no early return "
-            "on a size hint or a length, loops over next() end only on None).", "trusted": [TRUST_RUSTC], "assumptions": []},
+            "on a size hint or a length, loops over next() end only on None), capacity-invisibility (no capacity() result reaches a branch or an argument: which priority survives a clash "
+            "may not depend on the allocation history).", "trusted": [TRUST_RUSTC], "assumptions": []},
     "C08": {"rules": [c08], "explanation":
             "R-RESTORE for retain/retain_mut/pop_*_if/IterMut-Drop, R-ONCE (user predicate invoked exactly once per element/call, only through "
             "the Store primitive), R-IFF (swap_remove_if removes iff the predicate accepted; the refused path writes nothing), R-GROW retain "
